@@ -109,7 +109,7 @@ func reference(c UDPCase, cache map[string]*refEntry) *refEntry {
 	cache[key] = r
 	var got [2]*obs
 	for i := range got {
-		o, f, err := execUDP(rc)
+		o, f, err := execUDP(rc, nil)
 		switch {
 		case err != nil:
 			r.err = "reference execution: " + err.Error()
@@ -133,14 +133,14 @@ func reference(c UDPCase, cache map[string]*refEntry) *refEntry {
 
 // judge runs one case and returns the failure (nil: property held), the observation and a harness error.
 func judge(c UDPCase, ref *obs) (*obs, *failure, error) {
-	o, f, err := execUDP(c)
+	if c.Src.Expect != "ignore" || c.relaxed() {
+		ref = nil
+	}
+	o, f, err := execUDP(c, ref)
 	if err != nil || f != nil {
 		return o, f, err
 	}
-	if c.Src.Expect == "ignore" && !c.relaxed() {
-		if f = compare(ref, o); f != nil {
-			return o, f, nil
-		}
+	if ref != nil {
 		if c.Silence && !c.Auto && !o.Timeout {
 			return o, &failure{"closes-with-other-error", o.Err}, nil
 		}
